@@ -1108,3 +1108,47 @@ package graphql
 //@   ensures typeis(p.Node, "*ast.OperationDefinition") && as(p.Node, "*ast.OperationDefinition") != nil && as(p.Node, "*ast.OperationDefinition").Name != nil && old(has(knownOperationNames, as(p.Node, "*ast.OperationDefinition").Name.Value)) ==> calls("reportError") == 1
 //@   ensures typeis(p.Node, "*ast.OperationDefinition") && as(p.Node, "*ast.OperationDefinition") != nil && as(p.Node, "*ast.OperationDefinition").Name != nil && !old(has(knownOperationNames, as(p.Node, "*ast.OperationDefinition").Name.Value)) ==> calls("reportError") == 0 && has(knownOperationNames, as(p.Node, "*ast.OperationDefinition").Name.Value)
 //@   ensures typeis(p.Node, "*ast.OperationDefinition") && as(p.Node, "*ast.OperationDefinition") != nil && as(p.Node, "*ast.OperationDefinition").Name == nil ==> calls("reportError") == 0
+
+// LoneAnonymousOperation: the Document callback counts the operation definitions; an operation is
+// reported exactly when it is anonymous and the document holds more than one operation.
+//@ func LoneAnonymousOperationRule$2
+//@   props C02
+//@   nosafety
+//@   assigns class:graphql.ValidationContext, class:E|
+//@   ensures typeis(p.Node, "*ast.OperationDefinition") && as(p.Node, "*ast.OperationDefinition").Name == nil && operationCount > 1 ==> calls("reportError") == 1
+//@   ensures !(typeis(p.Node, "*ast.OperationDefinition") && as(p.Node, "*ast.OperationDefinition").Name == nil && operationCount > 1) ==> calls("reportError") == 0
+//@   at call reportError: assert arg0 == context && len(arg2) == 1 && typeis(arg2[0], "*ast.OperationDefinition") && as(arg2[0], "*ast.OperationDefinition") == node
+//@ func LoneAnonymousOperationRule$1
+//@   props C02
+//@   nosafety
+//@   opt invoke.GetKind=pure
+//@   loop 1 invariant 0 <= operationCount && operationCount <= rangeindex + 1
+//@   ensures typeis(p.Node, "*ast.Document") ==> 0 <= operationCount && operationCount <= len(as(p.Node, "*ast.Document").Definitions)
+
+// KnownFragmentNames: a spread is reported exactly when the document defines no fragment of that name.
+//@ func KnownFragmentNamesRule$1
+//@   props C02
+//@   nosafety
+//@   assigns class:M|, class:E|, class:graphql.ValidationContext
+//@   ensures typeis(p.Node, "*ast.FragmentSpread") && lastresult("Fragment") == nil ==> calls("reportError") == 1
+//@   ensures typeis(p.Node, "*ast.FragmentSpread") && lastresult("Fragment") != nil ==> calls("reportError") == 0
+//@   ensures !typeis(p.Node, "*ast.FragmentSpread") ==> calls("reportError") == 0 && calls("Fragment") == 0
+//@   at call Fragment: assert node.Name != nil ==> arg1 == node.Name.Value
+
+// ScalarLeafs: a field is reported exactly when its type is known and (leaf with a sub-selection, or
+// non-leaf without one).
+//@ func ScalarLeafsRule$1
+//@   props C02
+//@   nosafety
+//@   assigns class:graphql.ValidationContext, class:E|
+//@   ensures typeis(p.Node, "*ast.Field") && as(p.Node, "*ast.Field") != nil && !isnil(lastresult("Type")) && IsLeafType_0(lastresult("Type")) && as(p.Node, "*ast.Field").SelectionSet != nil ==> calls("reportError") == 1
+//@   ensures typeis(p.Node, "*ast.Field") && as(p.Node, "*ast.Field") != nil && !isnil(lastresult("Type")) && !IsLeafType_0(lastresult("Type")) && as(p.Node, "*ast.Field").SelectionSet == nil ==> calls("reportError") == 1
+//@   ensures typeis(p.Node, "*ast.Field") && as(p.Node, "*ast.Field") != nil && !isnil(lastresult("Type")) && (IsLeafType_0(lastresult("Type")) <==> as(p.Node, "*ast.Field").SelectionSet == nil) ==> calls("reportError") == 0
+//@   ensures typeis(p.Node, "*ast.Field") && as(p.Node, "*ast.Field") != nil && isnil(lastresult("Type")) ==> calls("reportError") == 0
+//@ func IsLeafType
+//@   trusted
+//@   functional
+//@   assigns nothing
+//@ func ValidationContext.Type
+//@   trusted
+//@   assigns nothing
